@@ -722,6 +722,12 @@ def chk_flow(ctx, case):
     d0 = flow_digest(ref)
     by = {(r.result_index["sample_index"], r.result_index["case_index"]): r for r in ref}
     n_case = len(case["ests"])
+    # results are assembled BY INDEX (model flow_spec: sample-major, then case), whatever order the tasks ran in
+    want_order = [(s_, c_) for s_ in range(case["n_sample"]) for c_ in range(n_case)]
+    got_order = [(d[0], d[1]) for d in d0]
+    if got_order != want_order:
+        ctx.violation("flow", site, "result-order", "the returned list holds (sample, case) = %s, the model (flow_spec: results in submission order) %s" % (got_order, want_order), case)
+        return
     # ---- repeat (property: function of settings and seeds)
     rep_diff = first_diff(d0, flow_digest(run_flow(ts, None, exec_check)))
     ctx.count("flow", key=(repr(case), "repeat"), label=label + "-repeat")
@@ -750,6 +756,9 @@ def chk_flow(ctx, case):
     for pm in case["parallel_modes"]:
         res = run_flow(ts, pm, exec_check)
         d1 = flow_digest(res)
+        if [(d[0], d[1]) for d in d1] != want_order:
+            ctx.violation("flow", site, "result-order", "parallel_mode=%s: the returned list holds (sample, case) = %s, expected %s" % (pm, [(d[0], d[1]) for d in d1], want_order), case)
+            continue
         diff = first_diff(d0, d1)
         ctx.count("flow", key=(repr(case), repr(pm), _run_counter[0]), label=label + "-parallel")
         if diff is None:
